@@ -28,9 +28,9 @@ from __future__ import annotations
 
 import ast
 
-from ..core import Ctx, Ob, ok, unres, viol
+from ..core import Ctx, Ob, note, ok, unres, viol
 from ..flow import LocalDefs
-from ..model import ClassInfo, FuncInfo, dotted, is_self_attr, unparse, walk_no_nested
+from ..model import AnalysisError, ClassInfo, FuncInfo, dotted, is_self_attr, unparse, walk_no_nested
 
 ABSTRACT_MODULE = "cirkit.backend.torch.graph.modules.AbstractTorchModule"
 GRAPH = "cirkit.backend.torch.graph.modules.TorchDiAcyclicGraph"
@@ -473,31 +473,163 @@ def r10j(ctx: Ctx) -> list[Ob]:
 
 # ------------------------------------------------------------------------------------------ R10k
 def r10k(ctx: Ctx) -> list[Ob]:
-    """R10k -- 'every learnable tensor exactly once': a reference does not register its target.
+    """R10k -- 'every learnable tensor exactly once' for circuits with several references to one tensor.
 
-    ``nn.Module.__setattr__`` registers every module-valued attribute as a child, and ``state_dict``
-    lists a child's tensors under the parent's prefix.  A pointer node that keeps the tensor it refers
-    to in a plain attribute therefore makes the *referenced* tensor part of the state dict of every
-    circuit that points at it -- once per pointer (squaring a circuit lists each of its tensors twice
-    in the product's dictionary, same storage under two keys).  The pointer class has to hold its
-    target outside the module registry (``object.__setattr__``, a tuple / weak reference) for the
-    clause to hold for derived circuits."""
+    A pointer node has to keep the tensor it refers to as a registered child (R10a): otherwise the
+    state dict of a derived circuit does not hold the tensors it evaluates and a round trip through it
+    restores nothing.  ``state_dict`` then lists the target under the prefix of *every* pointer, so a
+    circuit with two pointers to one tensor (``c * c``) lists it twice -- same storage, two keys --
+    unless something de-duplicates: an override of ``state_dict`` / ``_save_to_state_dict`` (or a
+    state-dict hook) on the pointer, the parameter graph or the circuit classes.  The rule looks for
+    that mechanism; without it the clause fails for exactly those circuits.
+
+    (Rounds 3a-3b stated this rule as "the target must *not* be registered"; a seeded change doing
+    precisely that showed the remedy breaks the round trip and contradicts R10a.  The finding -- D26,
+    duplicates for c * c -- stands; the demanded remedy was wrong and is corrected here.)"""
     pq = "cirkit.backend.torch.parameters.nodes.TorchPointerParameter"
     pc = ctx.repo.cls(pq)
     init = ctx.repo.lookup(pc, "__init__")
+    inst = "shared-target-listed-once"
     if init is None:
-        return [unres("R10k", pq, "target-unregistered", "no __init__", pc.loc)]
+        return [unres("R10k", pq, inst, "no __init__", pc.loc)]
     tgt = None
     for p in init.params:
         if p.annotation is not None and "TorchTensorParameter" in unparse(p.annotation):
             tgt = p.name
     if tgt is None:
-        return [unres("R10k", pq, "target-unregistered", "the constructor parameter holding the target was not identified", init.loc)]
+        return [unres("R10k", pq, inst, "the constructor parameter holding the target was not identified", init.loc)]
+    registers = False
     for n in walk_no_nested(init.node):
         if isinstance(n, (ast.Assign, ast.AnnAssign)):
             tgts = n.targets if isinstance(n, ast.Assign) else [n.target]
-            val = n.value
             for t in tgts:
-                if is_self_attr(t) and isinstance(val, ast.Name) and val.id == tgt:
-                    return [viol("R10k", pq, "target-unregistered", f"`{unparse(n)}` stores the referenced TorchTensorParameter in a plain attribute: nn.Module registers it as a child of the pointer, so the state dict of a derived circuit lists the operand's tensor once per pointer ('exactly once' fails for every circuit with two pointers to one tensor, e.g. c * c)", f"{init.module.relpath}:{n.lineno}")]
-    return [ok("R10k", pq, "target-unregistered", "the target is not stored as a registered child module", init.loc)]
+                if is_self_attr(t) and isinstance(n.value, ast.Name) and n.value.id == tgt:
+                    registers = True
+        if isinstance(n, ast.Call) and isinstance(n.func, ast.Attribute) and n.func.attr in ("add_module", "register_module") and any(isinstance(a, ast.Name) and a.id == tgt for a in n.args):
+            registers = True
+    if not registers:
+        return [note("R10k", pq, inst, "the pointer does not register its target (R10a decides that): nothing is listed twice", init.loc)]
+    DEDUP = {"state_dict", "_save_to_state_dict", "get_extra_state", "_register_state_dict_hook", "register_state_dict_post_hook", "register_state_dict_pre_hook"}
+    where = []
+    for c in ctx.repo.classes.values():
+        if not c.module.name.startswith("cirkit.backend.torch"):
+            continue
+        for m in c.methods:
+            if m in DEDUP:
+                where.append(f"{c.name}.{m}")
+    for f in ctx.repo.iter_functions():
+        if f.module.name.startswith("cirkit.backend.torch"):
+            for n in walk_no_nested(f.node):
+                if isinstance(n, ast.Call) and isinstance(n.func, ast.Attribute) and n.func.attr in DEDUP and n.func.attr.startswith(("_register", "register")):
+                    where.append(f"{f.qualname}:{n.func.attr}")
+    if where:
+        return [ok("R10k", pq, inst, f"state-dict customisation present ({sorted(set(where))[:3]}): shared targets can be listed once", init.loc)]
+    return [viol("R10k", pq, inst, "the pointer registers its target as a child (as it must, R10a) and nothing de-duplicates the state dict: a circuit with two pointers to one tensor (c * c) lists that tensor under two keys with the same storage -- 'every learnable tensor exactly once' fails for such derived circuits", init.loc)]
+
+# ------------------------------------------------------------------------------------------ R10m
+def r10m(ctx: Ctx) -> list[Ob]:
+    """R10m -- the key set of the state dict does not depend on what has been evaluated.
+
+    A *persistent* buffer (``register_buffer(name, ..)`` without ``persistent=False``) is part of the
+    state dict iff it is not ``None``.  An evaluation method (forward, log_partition_function,
+    integrate, sample, ..) that assigns a tensor to a registered buffer name -- a lazily filled cache
+    registered as ``None`` in the constructor -- makes the dictionary of an instance that has
+    answered a query differ from the dictionary of a fresh one: loading it raises "Unexpected
+    key(s)", although both were compiled from the same circuit with the same flags."""
+    obs: list[Ob] = []
+    for c in _module_classes(ctx):
+        bufs: dict[str, bool] = {}
+        for k in ctx.repo.mro(c):
+            for m in k.methods.values():
+                for n in walk_no_nested(m.node):
+                    if isinstance(n, ast.Call) and isinstance(n.func, ast.Attribute) and n.func.attr == "register_buffer" and isinstance(n.func.value, ast.Name) and n.func.value.id == "self" and n.args and isinstance(n.args[0], ast.Constant) and isinstance(n.args[0].value, str):
+                        pers = next((kw.value for kw in n.keywords if kw.arg == "persistent"), n.args[2] if len(n.args) > 2 else None)
+                        persistent = not (isinstance(pers, ast.Constant) and pers.value is False)
+                        bufs[n.args[0].value] = bufs.get(n.args[0].value, False) or persistent
+        pbufs = {b for b, p in bufs.items() if p}
+        if not pbufs:
+            continue
+        bad = []
+        for mname in EVAL_METHODS:
+            m = c.methods.get(mname)
+            if m is None or m.is_abstract:
+                continue
+            for n in walk_no_nested(m.node):
+                targets: list[ast.AST] = []
+                if isinstance(n, ast.Assign):
+                    targets = list(n.targets)
+                elif isinstance(n, (ast.AnnAssign, ast.AugAssign)):
+                    targets = [n.target]
+                for t in targets:
+                    a = is_self_attr(t)
+                    if a in pbufs:
+                        bad.append((mname, a, n.lineno, m))
+        if bad:
+            mname, a, ln, m = bad[0]
+            obs.append(viol("R10m", c.qualname, f"buffer-keys:{a}", f"{c.name}.{mname} assigns the persistent buffer `{a}` while evaluating: the buffer enters the state dict only once that method has run, so a saved dictionary of a queried instance has keys a freshly compiled instance does not expect (and vice versa)", f"{m.module.relpath}:{ln}"))
+        else:
+            obs.append(ok("R10m", c.qualname, "buffer-keys", f"persistent buffers {sorted(pbufs)} are not assigned by evaluation methods", c.loc))
+    return obs
+
+
+# ------------------------------------------------------------------------------------------ R10n
+def r10n(ctx: Ctx) -> list[Ob]:
+    """R10n -- a reference node reads its target when it is evaluated.
+
+    Derived circuits share the operand's tensors *by reference*: a node that holds another parameter
+    node (its constructor takes one and stores it) must evaluate it in ``forward`` -- call the stored
+    module -- and must not return a tensor bound earlier (in ``reset_parameters``, in the constructor,
+    lazily on first use).  A bound tensor keeps following in-place updates, which is why such a cache
+    looks right, and silently stops following the operand as soon as the operand re-allocates
+    (re-initialisation, ``load_state_dict(assign=True)``, ``.to()`` of a parameter)."""
+    obs: list[Ob] = []
+    for c in _module_classes(ctx):
+        if not c.module.name.startswith("cirkit.backend.torch.parameters"):
+            continue
+        init = c.methods.get("__init__")
+        fwd = c.methods.get("forward")
+        if init is None or fwd is None:
+            continue
+        holders = []
+        for p in init.params:
+            if p.annotation is not None and any(k in unparse(p.annotation) for k in ("TorchTensorParameter", "TorchParameterNode", "TorchParameterInput")) and "Sequence" not in unparse(p.annotation) and "list" not in unparse(p.annotation):
+                for n in walk_no_nested(init.node):
+                    if isinstance(n, (ast.Assign, ast.AnnAssign)):
+                        tgts = n.targets if isinstance(n, ast.Assign) else [n.target]
+                        for t in tgts:
+                            a = is_self_attr(t)
+                            if a and isinstance(n.value, ast.Name) and n.value.id == p.name:
+                                holders.append(a)
+                    if isinstance(n, ast.Call) and isinstance(n.func, ast.Attribute) and n.func.attr == "__setattr__" and len(n.args) >= 3 and isinstance(n.args[1], ast.Constant) and isinstance(n.args[2], ast.Name) and n.args[2].id == p.name:
+                        holders.append(n.args[1].value)
+        if not holders:
+            continue
+        derefs = {m.name for m in c.methods.values() if any(isinstance(r, ast.Return) and r.value is not None and is_self_attr(r.value) in holders for r in walk_no_nested(m.node))}
+        calls_target = False
+        for n in walk_no_nested(fwd.node):
+            if isinstance(n, ast.Call):
+                if is_self_attr(n.func) in holders:
+                    calls_target = True
+                if isinstance(n.func, ast.Call) and isinstance(n.func.func, ast.Attribute) and isinstance(n.func.func.value, ast.Name) and n.func.func.value.id == "self" and n.func.func.attr in derefs:
+                    calls_target = True
+        # attributes bound from a call of the target outside forward
+        cached: set[str] = set()
+        for m in c.methods.values():
+            if m.name == "forward":
+                continue
+            for n in walk_no_nested(m.node):
+                if isinstance(n, (ast.Assign, ast.AnnAssign)) and n.value is not None:
+                    tgts = n.targets if isinstance(n, ast.Assign) else [n.target]
+                    if any(isinstance(k, ast.Call) and is_self_attr(k.func) in holders for k in ast.walk(n.value)):
+                        cached |= {a for t in tgts if (a := is_self_attr(t))}
+        reads_cache = sorted({x.attr for x in walk_no_nested(fwd.node) if isinstance(x, ast.Attribute) and isinstance(x.ctx, ast.Load) and isinstance(x.value, ast.Name) and x.value.id == "self" and x.attr in cached})
+        inst = f"deref-at-eval:{holders[0]}"
+        if reads_cache:
+            obs.append(viol("R10n", c.qualname, inst, f"forward returns self.{reads_cache[0]}, bound from the target outside forward: the reference stops following the operand once the operand re-allocates its tensor (reset_parameters of the operand after the derived circuit was compiled)", fwd.loc))
+        elif calls_target:
+            obs.append(ok("R10n", c.qualname, inst, "forward evaluates the stored target", fwd.loc))
+        else:
+            obs.append(viol("R10n", c.qualname, inst, "forward does not evaluate the stored target node", fwd.loc))
+    if not obs:
+        raise AnalysisError("R10n: no parameter node holding another node (anchor vanished)")
+    return obs
